@@ -99,6 +99,7 @@ type thread struct {
 	pend    *chanOp
 	res     []uintptr // resources of the pending operation (partial-order reduction)
 	daemon  bool      // models a runtime-internal waiter (context.AfterFunc): never reported as left behind
+	spawned bool      // has started a thread since its last scheduling point
 }
 
 var (
@@ -316,8 +317,17 @@ func GoNamed(name string, body func()) {
 		name = "go@" + callerLoc(2)
 	}
 	t := newThread(name)
+	if cur != nil {
+		cur.spawned = true
+	}
 	startThread(t, body)
 }
+
+// SpawnedSinceSched reports whether the running thread has started another thread since its last
+// scheduling point. WaitGroup.Add uses it: "go f(); wg.Add(1)" lets the new goroutine reach Done
+// before the Add, so in that one position the Add must be a scheduling point (everywhere else the
+// counter update is atomic with the step it belongs to).
+func SpawnedSinceSched() bool { return Active && cur != nil && cur.spawned }
 
 func threadExit(t *thread) {
 	t.done = true
@@ -486,6 +496,7 @@ func callerLoc(skip int) string {
 // chosen while its enabledness predicate holds.
 func point(enabled func() bool, desc string) {
 	t := cur
+	t.spawned = false
 	t.enabled = enabled
 	t.desc = desc
 	if pendingRes != nil {
